@@ -634,6 +634,58 @@ def read_failures(h):
         h.oblige("the failure is followed by exactly one connection reset", len(resets) == 1)
 
 
+READ_OWN = "a read loop never reads from a connection it was not started for (the socket's reader was replaced while the loop was suspended)"
+READ_OWN_RESET = "a read loop whose connection was replaced meanwhile does not reset the connection that replaced it"
+
+
+@oset("socket._read.connection-replaced-meanwhile", ["C15", "C07", "C13"], [F_READ])
+def read_stale(h):
+    """Loop invariant of the read task that the iteration-wise contract above cannot see: the loop belongs to ONE connection.
+    While it is suspended - delivering a frame to a slow subscriber, or waiting for bytes - the socket may give that
+    connection up and adopt another one (reset + reconnect, or close() + open_socket() of a re-initialised client), whose own
+    read loop _connect starts.  When the old loop resumes it must be over: two loops on one StreamReader raise
+    'readexactly() called while another coroutine is already waiting', which resets the healthy connection, and frames are
+    torn between them."""
+    if not h.symbolic:
+        from replay import more_scenarios as M
+        M.oblige_from(h, [M.stale_read_loop_scenarios], {READ_OWN, READ_OWN_RESET})
+        return
+    from contracts.sockworld import ReaderModel, WriterModel
+    W = SockWorld(h)
+    sock = W.make_socket(connected=True, is_open=True)
+    when = h.choice("replaced_while", ["delivering a frame", "waiting for bytes (old connection ends with EOF)",
+                                       "waiting for bytes (old connection ends with a transport error)"])
+    hdr, msg = W.header("rxh"), W.message("rxm")
+    n = {"reads": 0}
+
+    def replace():
+        # what a concurrent _disconnect + _connect leave behind (J1 holds): a new reader / writer pair, connected, open
+        sock.attrs["_reader"] = ReaderModel(W.w, "reader@next-connection")
+        sock.attrs["_writer"] = WriterModel(W.w, "writer@next-connection", closed=False, closing=False)
+        sock.attrs["is_connected"] = True
+
+    def read_one(it):
+        n["reads"] += 1
+        if n["reads"] > 1:
+            raise LoopCut()          # a second read: counted, not followed
+        if when == "delivering a frame":
+            return (hdr, msg)
+        replace()
+        raise it.exc("IncompleteReadError" if "EOF" in when else "ConnectionResetError", "old connection")
+
+    def delivered(it):
+        replace()
+        return None
+    stub_async(W, F_READ1, "_read_one_message", [read_one])
+    stub_async(W, F_NMR, "_notify_message_received", [delivered])
+    stub_async(W, F_RESET, "reset_connection", [None])
+    r = h.method(sock, "_read")
+    h.oblige("the read task lets no exception out", r.ok)
+    h.oblige(READ_OWN, n["reads"] == 1)
+    h.oblige(READ_OWN_RESET, len(calls(W, "reset_connection")) == 0)
+    h.cover("stale loop explored")
+
+
 # ------------------------------------------------------------------------------------------------
 # send / _notify_subscribers
 
